@@ -595,3 +595,65 @@ package channel
 //@   ensures result1 != nil ==> result0 == nil
 //@   ensures result1 == nil ==> result0 != nil && fresh(result0) && machInv(result0) && result0.phase == InitActing &&
 //@           emptyTX(result0.stagingTX) && emptyTX(result0.currentTX) && result0.params == params && result0.acc == acc
+
+// ---------------------------------------------------------------------------
+// Decoders (C13): no panic for arbitrary input; a successful decode yields a
+// well-formed value within the documented limits. These postconditions are the
+// preconditions of the message handlers (C12).
+// ---------------------------------------------------------------------------
+
+// Backends and apps are configured at start-up; decoding relies on at least one
+// channel backend being registered and behaving (environment assumption).
+//@ func NewAppID
+//@   trusted
+//@   ensures result0 != nil
+
+//@ func Resolve
+//@   trusted
+//@   requires def != nil
+//@   ensures result1 == nil ==> result0 != nil
+
+//@ interface Backend
+//@   method NewAsset
+//@     requires recv != nil
+//@     ensures result != nil
+//@ end
+
+//@ func (*Balances).Decode
+//@   requires r != nil
+//@   modifies b.*
+//@   ensures result == nil ==> nonNilBalances(*b) && len(*b) <= MaxNumAssets && (forall i int :: 0 <= i && i < len(*b) ==> len((*b)[i]) <= MaxNumParts)
+//@   ensures result == nil ==> (forall i int :: 0 <= i && i < len(*b) ==> nonNeg((*b)[i])) && (forall i, j int :: 0 <= i && i < len(*b) && 0 <= j && j < len(*b) ==> len((*b)[i]) == len((*b)[j]))
+//@   loop 1
+//@     modifies (*b)[*]
+//@     invariant len(*b) == numAssets && fresh(arr(*b)) && off(*b) == 0
+//@     invariant forall k int :: 0 <= k && k < $i ==> len((*b)[k]) == numParts && nonNilBals((*b)[k]) && nonNeg((*b)[k])
+//@   loop 2
+//@     modifies (*b)[i][*]
+//@     invariant 0 <= i && i < len(*b) && len((*b)[i]) == numParts && fresh(arr((*b)[i])) && off((*b)[i]) == 0
+//@     invariant forall l int :: 0 <= l && l < $i ==> (*b)[i][l] != nil && val((*b)[i][l]) >= 0
+
+//@ func (*SubAlloc).Decode
+//@   requires r != nil
+//@   modifies s.*
+//@   ensures result == nil ==> nonNilBals(s.Bals) && len(s.Bals) <= MaxNumAssets && nonNeg(s.Bals) && s.IndexMap != nil
+//@   loop 1
+//@     modifies s.Bals[*]
+//@     invariant len(s.Bals) == numAssets && fresh(arr(s.Bals)) && off(s.Bals) == 0
+//@     invariant forall k int :: 0 <= k && k < $i ==> s.Bals[k] != nil
+//@   loop 2
+//@     modifies s.IndexMap[*]
+//@     invariant len(s.IndexMap) == l && fresh(arr(s.IndexMap)) && off(s.IndexMap) == 0 && len(s.Bals) == numAssets && nonNilBals(s.Bals)
+
+//@ func (*Allocation).Decode
+//@   requires r != nil
+//@   modifies a.*
+//@   ensures result == nil ==> validAlloc(*a) && len(a.Backends) == len(a.Assets) && nonNilAssets(a.Assets) && nonNilBalances(a.Balances) && nonNilLocked(a.Locked)
+//@   loop 1
+//@     modifies a.Assets[*], a.Backends[*]
+//@     invariant len(a.Assets) == numAssets && len(a.Backends) == numAssets && fresh(arr(a.Assets)) && fresh(arr(a.Backends)) && off(a.Assets) == 0 && off(a.Backends) == 0
+//@     invariant forall k int :: 0 <= k && k < $i ==> a.Assets[k] != nil
+//@   loop 2
+//@     modifies a.Locked[*]
+//@     invariant len(a.Locked) == numLocked && fresh(arr(a.Locked)) && off(a.Locked) == 0 && len(a.Assets) == numAssets && len(a.Backends) == numAssets && nonNilAssets(a.Assets) && nonNilBalances(a.Balances)
+//@     invariant forall k int :: 0 <= k && k < $i ==> nonNilBals(a.Locked[k].Bals)
